@@ -10,6 +10,8 @@
 #include "LIAInterpolator.h"
 #include "CutCreator.h"
 
+#include <common/VerifSim.h>
+
 #include <common/Random.h>
 #include <models/ModelBuilder.h>
 
@@ -123,6 +125,7 @@ void LASolver::storeExplanation(Simplex::Explanation &&explanationBounds) {
         explanation.push(asgn);
         explanationCoefficients.push_back(explanationBounds[i].coeff);
     }
+    if (explanation.size() > 0) { OSMT_SIM_LACONFLICT(&logic, &explanation, &explanationCoefficients); }
 }
 
 bool LASolver::check_simplex(bool complete) {
@@ -737,6 +740,7 @@ void LASolver::printStatistics(std::ostream & out) {
 
 bool LASolver::shouldTryCutFromProof() const {
     if (this->config.produce_inter()) { return false; }
+    if (int const simChoice = OSMT_SIM_UNUSUAL(opensmt::verifsim::US_CUT); simChoice >= 0) { return simChoice != 0; }
     static unsigned long counter = 0;
     return ++counter % 10 == 0;
 }
